@@ -43,6 +43,21 @@ def nestW(n):
         w = b'\xa1\x07\x83' + inner + b'\xa0\x40'
     return w
 
+def nestG(n, pattern):
+    """header nested n levels; pattern[i % len] in 'pb' 'pl' 'ub' 'ul': level i goes through the protected (p) or unprotected (u) header of
+    the counter signature, written bare (b) or as a one-element list (l)"""
+    w = b'\xa0'
+    for i in range(n):
+        how = pattern[i % len(pattern)]
+        if how[0] == 'p':
+            sig = b'\x83' + refcbor.head(2, len(w)) + w + b'\xa0\x40'
+        else:
+            sig = b'\x83\x40' + w + b'\x40'
+        if how[1] == 'l': sig = b'\x81' + sig
+        w = b'\xa1\x07' + sig
+    return w
+NEST_PATTERNS = [['pb'], ['pl'], ['ub'], ['ul'], ['pb', 'ul'], ['pl', 'ub'], ['ul', 'pl', 'pb'], ['pb', 'pb', 'pl']]
+
 # ===================================================================== C01
 @register
 class C01(Prop):
@@ -79,6 +94,10 @@ class C01(Prop):
                 if t == 'CoseSignature': w = b'\x83' + refcbor.head(2, len(w)) + w + b'\xa0\x40'
                 ops.append(mk('chain %s b%s' % (t, w.hex()), k='nestW'))
         ops.append(mk('bstr b' + nestW(5).hex(), k='nestW'))
+        for pat in NEST_PATTERNS:
+            for k in (1, 2, 15, 16, 17, 18, 19, 33, 34):
+                ops.append(mk('chain Header b' + nestG(k, pat).hex(), k='nestG'))
+                ops.append(mk('chaint CoseSign1 b' + (b'\xd2\x84\x40' + nestG(k, pat) + b'\xf6\x40').hex(), k='nestG'))
         # follow-up helpers on decoded values (typed forms as the decoder would print them: orig present)
         for _ in range(budget(tier, 600, 6000)):
             aad = g.b(); pl = g.b()
